@@ -827,7 +827,7 @@ def run_parse_cases(ctx, cases):
                         elif getattr(e, "parent_object_", None) not in (None, c):
                             bad = "parent_object_ of the embedded copy is not its cell"
             if bad:
-                ctx.fail("C17:parse:not-resolved", bad, payload)
+                ctx.fail("C17:parse:copy-parent" if "parent_object_" in bad else "C17:parse:not-resolved", bad, payload)
                 continue
             sa = {}
             walk_ids(doc, sa, True)
@@ -1008,13 +1008,13 @@ PARSE_CORPUS = [
 
 def run(ctx):
     big = ctx.tier == "thorough"
-    n = ctx.n(800, 2500) * ctx.search_mult
+    n = ctx.n(500, 2500) * ctx.search_mult
     cases = [json.loads(json.dumps(c)) for c in CORPUS]
     for _ in range(n):
         cases.append(gen_case(ctx.rng, big=big))
     for i in range(0, len(cases), 60):
         run_cases(ctx, cases[i:i + 60])
-    pn = ctx.n(120, 400) * ctx.search_mult
+    pn = ctx.n(100, 400) * ctx.search_mult
     pcases = [json.loads(json.dumps(c)) for c in PARSE_CORPUS]
     for _ in range(pn):
         pcases.append(gen_case(ctx.rng, big=False, parse=True))
